@@ -37,6 +37,9 @@ ApplyVerdict(r) ==
             ELSE IF r.rotate THEN "C43:rotation-and-reinterpolation" ELSE "C43:reinterpolation"
   ELSE IF r.haserr /\ r.outerr # Applied(r.E, f, r.g, r.deg, r.tgt, r.rotate, r.qed)
        THEN "C43:error-propagation"
+  (* the two-step interface: rotate_result applied again and again to the SAME contraction output  *)
+  (* (apply_grids called once) must give what apply_pdf gives, and must leave that output untouched *)
+  ELSE IF r.lowlevel # "same" THEN "C43:rotate-result-on-the-same-raw-grids:" \o r.lowlevel
   ELSE "ok"
 
 (* flavour reshape: T / U are given as used by the caller (<<>> = side untouched);  *)
